@@ -18,12 +18,12 @@ def gen(rng, sc, n):
         lines.append(l)
         meta[l] = (mt2, items)
     for i in range(n):
-        mt, items = cc.gen_message(rng, sc, p_opt=rng.choice((0.0, 0.3, 0.7, 1.0)))
+        mt, items = cc.gen_message(rng, sc, p_opt=rng.choice((0.0, 0.3, 0.7, 1.0)), trailer_plain=0.25)
         l = cc.spec_line('clone', mt, items, rng)
         lines.append(l)
         meta[l] = (mt, items)
     for mt, _ in sc['msgs']:
-        mt2, items = cc.gen_message(rng, sc, p_opt=1.0, msgtype=mt)
+        mt2, items = cc.gen_message(rng, sc, p_opt=1.0, msgtype=mt, trailer_plain=0.5)
         l = cc.spec_line('clone', mt2, items, rng)
         lines.append(l)
         meta[l] = (mt2, items)
